@@ -234,15 +234,30 @@ func (c *ShipConnection) endHandshakeWithError(err error) {
 func (c *ShipConnection) setHandshakeTimer(timerType timeoutTimerType, duration time.Duration) {
 	c.stopHandshakeTimer()
 
-	c.setHandshakeTimerRunning(true)
-	c.setHandshakeTimerType(timerType)
+	// every timer has its own stop channel, which is closed when the timer is stopped or replaced
+	// this way a stop can not get lost, even if the timer goroutine did not reach its select yet
+	stopChan := make(chan struct{})
+
+	c.handshakeTimerMux.Lock()
+	c.handshakeTimerRunning = true
+	c.handshakeTimerType = timerType
+	c.handshakeTimerStopChan = stopChan
+	c.handshakeTimerMux.Unlock()
 
 	go func() {
 		select {
-		case <-c.handshakeTimerStopChan:
+		case <-stopChan:
 			return
 		case <-time.After(duration):
-			c.setHandshakeTimerRunning(false)
+			// only the most recently set timer may report a timeout, and only if it was not stopped
+			c.handshakeTimerMux.Lock()
+			if c.handshakeTimerStopChan != stopChan || !c.handshakeTimerRunning {
+				c.handshakeTimerMux.Unlock()
+				return
+			}
+			c.handshakeTimerRunning = false
+			c.handshakeTimerMux.Unlock()
+
 			if !c.isConnectionClosed() {
 				c.handleState(true, nil)
 			}
@@ -253,15 +268,15 @@ func (c *ShipConnection) setHandshakeTimer(timerType timeoutTimerType, duration 
 
 // stop the handshake timer and close the channel
 func (c *ShipConnection) stopHandshakeTimer() {
-	if !c.getHandshakeTimerRunning() {
+	c.handshakeTimerMux.Lock()
+	defer c.handshakeTimerMux.Unlock()
+
+	if !c.handshakeTimerRunning {
 		return
 	}
 
-	select {
-	case c.handshakeTimerStopChan <- struct{}{}:
-	default:
-	}
-	c.setHandshakeTimerRunning(false)
+	close(c.handshakeTimerStopChan)
+	c.handshakeTimerRunning = false
 }
 
 func (c *ShipConnection) setHandshakeTimerRunning(value bool) {
